@@ -131,6 +131,17 @@ void AsyncLogging::threadFunc()
     buffersToWrite.clear();
     output.flush();
   }
+  // stop() has been seen: write what was appended since the last swap
+  {
+    muduo::MutexLockGuard lock(mutex_);
+    buffers_.push_back(std::move(currentBuffer_));
+    currentBuffer_ = std::move(newBuffer1);
+    buffersToWrite.swap(buffers_);
+  }
+  for (const auto& buffer : buffersToWrite)
+  {
+    output.append(buffer->data(), buffer->length());
+  }
   output.flush();
 }
 
